@@ -1,6 +1,6 @@
 PROPERTY = 'C37'
 LEVEL = 'proof'
-VERUS = ['verus/C37.rs']
+VERUS = ['verus/C37.rs', 'verus/C37_handler.rs']
 TRUSTED = [
     'prelude / monomorphisation as in C01 (only mul_div_floor / uunit specs and vstd lemmas are used); vstd spec of core::mem::swap',
     'carriers Config{gt_factor, buyback_factor} and GtBank{remaining_confirmed_gt_amount}: the fields these functions touch; full field lists of the repo structs compared on every run (R11)',
@@ -8,27 +8,20 @@ TRUSTED = [
     'anchor require*!/error! macros per R5/R6',
 ]
 UNVERIFIED = [
-    'THE PAYOUT HANDLER IS NOT PROVED: CompleteGtExchange::execute (programs/treasury/src/instructions/gt_bank.rs) computes `balance.checked_mul_div(&gt_amount, &total_gt_amount)` per token, transfers by CPI and calls record_transferred_out / record_claimed; these expressions are located by text on every run (lost => exit 2); the arithmetic facts about that expression (never more than the balance, last claim drains) are proved as a lemma over the C01 contract of checked_mul_div, not over the handler',
-    'GtBank balances are a fixed-capacity TokenBalances map (get_balance / record_transferred_out / reserve_balances iterate map entries): not under contract here (C34 material)',
+    'payout handler: the per-token account plumbing inside the loop (token program selection, ATA validation, target authority, mint decoding, CpiContext, transfer_checked) is ONE assumed call that fails or moves exactly the amount (ghost ledger); remaining_accounts slicing and the close_gt_exchange CPI are assumed fallible calls; AccountLoader::load()/load_mut() are projections and the handler is taken by `&mut self`; `for (idx, token) in tokens.iter().enumerate()` is written as an indexed while loop; u64 MulDiv as verified glue (C01 at width u64)',
+    'GtBank balances are a fixed-capacity TokenBalances map: get / get_mut / the key list are assumed map contracts here (C34 material); reserve_balances and the deposit side are not covered',
     '"every claimant gets at least their floor share of the ORIGINAL balances" (a statement over the whole sequence of claims): not mechanised',
     'no native replay: items of an Anchor program crate; a failed obligation is reported with the verifier output and no-failing-input-found',
 ]
 ASSUMPTIONS = ['set_gt_factor / set_buyback_factor are the only writers of the two factor fields (Config::init zeroes them): checked by text on every run']
 MANIFEST = dict(engine='verus',
-    technique='Verus contracts on Config::{set_gt_factor, set_buyback_factor} and GtBank::{record_claimed, remaining_confirmed_gt_amount} extracted from /repo each run, plus a payout lemma over the mul_div_floor spec',
-    text='PARTIAL. Deductive proof, unbounded: the treasury GT and buyback factors never exceed 100% (a larger value is rejected, the bound is preserved by both setters, a rejected call changes nothing, each setter touches only its own factor); record_claimed succeeds exactly when the claim does not exceed the remaining confirmed GT and reduces it by exactly that amount; lemma: floor(balance * gt / remaining) is between 0 and the balance and equals the balance when gt == remaining (claims never pay more than the bank holds, the last claim drains it). The handler that applies this per token is located, not proved (listed).',
-    note='Partial claim: factor bounds, claim bookkeeping and the payout arithmetic. CompleteGtExchange::execute and the TokenBalances map are not covered.')
+    technique='Verus contracts on Config::{set_gt_factor, set_buyback_factor}, GtBank::{record_claimed, remaining_confirmed_gt_amount, get_balance_mut, record_transferred_out} and the whole CompleteGtExchange::execute handler (loop over the bank tokens with a ghost ledger of SPL transfers), extracted from /repo each run, plus a payout lemma over the mul_div_floor spec',
+    text='Deductive proof, unbounded: the treasury GT and buyback factors never exceed 100% (a larger value is rejected, the bound is preserved by both setters, a rejected call changes nothing, each setter touches only its own factor); record_claimed succeeds exactly when the claim does not exceed the remaining confirmed GT and reduces it by exactly that amount; lemma: floor(balance * gt / remaining) is between 0 and the balance and equals the balance when gt == remaining (claims never pay more than the bank holds, the last claim drains it). The handler that applies this per token is located, not proved (listed). Payout handler (whole CompleteGtExchange::execute): a zero claim moves nothing; otherwise the claim is at most the remaining confirmed GT, which shrinks by exactly the claim, and for EVERY token the bank lists the recorded balance shrinks by exactly floor(balance x claim / remaining) and every SPL transfer made is that amount of a listed token.',
+    note='Factor bounds, claim bookkeeping, the payout arithmetic and the payout handler (account plumbing and the SPL transfer assumed). The TokenBalances map is an assumed contract (C34).')
 
 
 def extra(res, repo, tier, seed):
     import os, re
-    h = open(os.path.join(repo, 'programs/treasury/src/instructions/gt_bank.rs')).read()
-    for pat, what in [(r'\.checked_mul_div\(&gt_amount, &total_gt_amount\)', 'per-token payout expression'),
-                      (r'require_gte!\(total_gt_amount, gt_amount, CoreError::Internal\)', 'claim bounded by the remaining confirmed GT'),
-                      (r'\.record_transferred_out\(token, amount\)\?', 'payout recorded per token'),
-                      (r'\.record_claimed\(gt_amount\)\?', 'claim recorded')]:
-        if not re.search(pat, h):
-            res.undecided.append(f'anchor lost: instructions/gt_bank.rs: {what} (/{pat}/ not found)')
     c = open(os.path.join(repo, 'programs/treasury/src/states/config.rs')).read()
     writes = re.findall(r'self\.(gt_factor|buyback_factor)\s*=[^=]', c) + re.findall(r'&mut self\.(gt_factor|buyback_factor)', c)
     if sorted(writes) != ['buyback_factor', 'gt_factor']:
